@@ -5,6 +5,8 @@
 
 package core
 
+import "reflect"
+
 // VerifSetState makes the in-memory file cache of a Metadata object (which is
 // all that getState consults) correspond to the given state.  The object
 // should come from NewMetadata; nothing is written to disk.
@@ -55,4 +57,13 @@ func VerifLocalJobManager(maxCores, maxMemGB int, maxVmemMB, procsMax int64,
 // cores, memory, virtual memory, processes (nil when absent).
 func (self *LocalJobManager) VerifSemaphores() [4]*ResourceSemaphore {
 	return [4]*ResourceSemaphore{self.centcoreSem, self.memMBSem, self.vmemMBSem, self.procsSem}
+}
+
+// VerifParked returns the number of goroutines currently parked in the
+// cond.Wait of Acquire (tickets handed out minus tickets notified).  It only
+// reads two counters of sync.Cond by reflection; it is used by the harness to
+// know when every woken caller has either returned or parked again.
+func (self *MaxJobsSemaphore) VerifParked() int {
+	nl := reflect.ValueOf(self.cond).Elem().FieldByName("notify")
+	return int(uint32(nl.FieldByName("wait").Uint()) - uint32(nl.FieldByName("notify").Uint()))
 }
